@@ -230,6 +230,7 @@ type Resolver struct {
 	cache   *lru.TwoQueueCache[cacheKey, *cacheValue]
 
 	insecureUseGoResolver bool
+	cacheMu               sync.Mutex // makes the lookup-or-insert of a cache entry atomic
 }
 
 // SetCacheSize sets the size of the DNS cache. The default size is 32. A zero
@@ -497,11 +498,14 @@ func (r *Resolver) resolveOne(ctx context.Context, name, typ string) ([]any, err
 		return v, err
 	}
 	key := cacheKey{name, typ}
+	// Concurrent first lookups of a key must share one entry.
+	r.cacheMu.Lock()
 	v, ok := cache.Get(key)
 	if !ok {
 		v = &cacheValue{}
 		cache.Add(key, v)
 	}
+	r.cacheMu.Unlock()
 	// fast path
 	v.mu.RLock()
 	exp, res := v.expiration, v.result
@@ -518,7 +522,10 @@ func (r *Resolver) resolveOne(ctx context.Context, name, typ string) ([]any, err
 	}
 	res, ttl, err := r.resolveOneNoCache(ctx, name, typ)
 	if err != nil {
-		cache.Remove(key)
+		// A failure is not cached. The entry itself stays: a lookup that
+		// is waiting for it will store its own answer there.
+		v.expiration = time.Time{}
+		v.result = nil
 		return nil, err
 	}
 	v.expiration = timeNow().Add(time.Second * time.Duration(ttl))
